@@ -290,3 +290,36 @@ func BadMapKeyObject(v *structpb.Value) int {
 	}
 	return len(counts)
 }
+
+// ---- helpers whose callers hold the guard ----
+
+func okHelperDeref(t gdbi.Traveler) string { return t.GetCurrent().ID }
+
+func OkCallsHelperGuarded(t gdbi.Traveler) string {
+	if t.IsNull() {
+		return ""
+	}
+	return okHelperDeref(t)
+}
+
+func OkCallsHelperGuardedToo(ts []gdbi.Traveler) (out []string) {
+	for _, t := range ts {
+		if t.IsSignal() || t.IsNull() {
+			continue
+		}
+		out = append(out, okHelperDeref(t))
+	}
+	return out
+}
+
+func badHelperDeref(t gdbi.Traveler) string { return t.GetCurrent().ID }
+
+func OkCallsBadHelperGuarded(t gdbi.Traveler) string {
+	if t.IsNull() {
+		return ""
+	}
+	return badHelperDeref(t)
+}
+
+// the unguarded call makes badHelperDeref's dereference reachable with a null traveler
+func OkCallsBadHelperUnguarded(t gdbi.Traveler) string { return badHelperDeref(t) }
